@@ -295,8 +295,8 @@ func (c *symCtx) depth() int {
 // Sym names values and conditions canonically.
 type Sym struct {
 	keepAtom func(*ssa.Function) bool // helpers whose call is kept as one atom although Expand is on
-	w     *World
-	names map[ssa.Value]string // names given by the rule
+	w        *World
+	names    map[ssa.Value]string // names given by the rule
 	// Expand: static in-module callees whose boolean result is expanded into
 	// the callee's own path conditions (loop-free callees only).
 	Expand bool
